@@ -34,9 +34,40 @@ def _run_bdiff(args, out):
 
 
 def _model_obs(out):
-    rc, o = sh("%s/model_driver < %s/histories.txt > %s/model_obs.txt" % (EXTRACT, out, out), timeout=3000)
-    if rc != 0:
-        raise Broken("extracted model driver failed: %s" % o[-2000:])
+    """the extracted model on every history of the run, one line of observations per history; the histories are
+    independent, so the file is cut into 16 pieces that run side by side"""
+    hs = open(os.path.join(out, "histories.txt")).read().splitlines()
+    if len(hs) < 64:
+        rc, o = sh("%s/model_driver < %s/histories.txt > %s/model_obs.txt" % (EXTRACT, out, out), timeout=3000)
+        if rc != 0:
+            raise Broken("extracted model driver failed: %s" % o[-2000:])
+        return
+    n = 16
+    per = -(-len(hs) // n)
+    parts = []
+    for k in range(n):
+        chunk = hs[k * per:(k + 1) * per]
+        if not chunk:
+            continue
+        f = os.path.join(out, "hist_part_%d.txt" % k)
+        open(f, "w").write("\n".join(chunk) + "\n")
+        parts.append((f, os.path.join(out, "model_part_%d.txt" % k), len(chunk)))
+
+    def one(p):
+        return sh("%s/model_driver < %s > %s" % (EXTRACT, p[0], p[1]), timeout=3000)
+    with ThreadPoolExecutor(max_workers=n) as ex:
+        results = list(ex.map(one, parts))
+    for (rc, o) in results:
+        if rc != 0:
+            raise Broken("extracted model driver failed: %s" % o[-2000:])
+    with open(os.path.join(out, "model_obs.txt"), "w") as w:
+        for (f, g, cnt) in parts:
+            lines = open(g).read().splitlines()
+            if len(lines) != cnt:
+                raise Broken("extracted model driver answered %d lines for %d histories" % (len(lines), cnt))
+            w.write("\n".join(lines) + "\n")
+            os.remove(f)
+            os.remove(g)
 
 
 def _diff(out, label):
